@@ -248,13 +248,16 @@ func runRedial(rec *Rec, app *App, fw *forwarder, sc *RedialScenario, n int) {
 	if budget == 3 {
 		interval = 100 * time.Millisecond // the blip configuration: outages of 1.5 intervals
 	}
-	cli := erpc.NewPeer(erpc.PeerConfig{RedialTimes: rt, RedialInterval: interval, DialTimeout: 200 * time.Millisecond}, hooks,
+	cli := erpc.NewPeer(erpc.PeerConfig{RedialTimes: rt, RedialInterval: interval, DialTimeout: 2 * time.Second}, hooks,
 		NewPlug(rec, "cli", "CL", "all", ""))
 	sess, st := cli.Dial(fw.addr)
-	rec.Emit("DialDone", "ok", st.OK())
 	if !st.OK() {
+		// the very first dial to a listening forwarder failed (dial timeout on a loaded machine, no local port left):
+		// nothing can be concluded from this run
+		rec.Emit("EnvFailure", "what", "initial dial failed: "+st.String())
 		return
 	}
+	rec.Emit("DialDone", "ok", st.OK())
 	defer func() {
 		// make sure nothing keeps redialing for ever
 		atomic.StoreInt32(&hooks.over, 1)
